@@ -2,6 +2,24 @@
 """write seeded/README.md from seeded/*/meta.json"""
 import glob, json, os, re
 VERIF = os.path.dirname(os.path.dirname(os.path.abspath(__file__)))
+WHY = {
+ 'C02-2': 'recursive-descent parser (src/syntax): out of reach of both verifiers (DESIGN.md §10)',
+ 'C02-3': 'missing_token_adder is covered only by the thorough-tier bounded unit token_adder (quick tier does not run it)',
+ 'C03-1': 'AssignmentParser name construction: not under contract (C03 covers find_location only)',
+ 'C03-2': 'token equality (impl PartialEq<TokenType> for TokenInfo): find_location is checked generically at u8, the equality itself is not under contract',
+ 'C03-3': 'update_token_variables: not under contract (RefCell<BTreeMap>, Vec::drain, TokenType drop glue)',
+ 'C04-2': 'rule_tokinizer marks a shared rule token Removed: aliasing over Rc<TokenInfo> is listed as not decided for C04',
+ 'C04-3': 'VariableInfo::to_string key: variable map handling is not under contract',
+ 'C05-3': 'rule pattern in config.json: which phrase reaches which rule function is assumption A3',
+ 'C06-2': 'compiles against the stand-ins and the SMT back end reports the failure, but neither the SAT re-decision nor the counterexample search finished in time on the loaded machine: undecided, not an alarm',
+ 'C06-3': 'read_currency lower-casing: string lookup in the unverified tokenizer layer',
+ 'C09-1': 'seeded site rewritten by the fix: commits (year/month now applied in one step)',
+ 'C09-2': 'today in the configured zone vs tomorrow/yesterday in UTC: text_constants (added afterwards) assumes one clock reading and UTC dates; the seed was run before that unit existed',
+ 'C09-3': 'statement added around the sliced call: residual-hash guard refuses to call small_date verified (exit 2)',
+ 'C11-2': 'statement added in front of the sliced difference: residual-hash guard (exit 2)',
+ 'C13-3': 'order of the literal regexes in config.json: assumption A3',
+ 'C14-1': 'DateTimeItem::print month name: string formatting, not under contract',
+}
 rows = []
 for d in sorted(glob.glob(os.path.join(VERIF, 'seeded', 'C*-*'))):
     mp = os.path.join(d, 'meta.json')
@@ -21,7 +39,7 @@ for d in sorted(glob.glob(os.path.join(VERIF, 'seeded', 'C*-*'))):
         outcome = 'NOT detected (check passed)'
     else:
         outcome = 'not run: ' + m.get('why_not_run', '')
-    rows.append((m['seed'], ', '.join(files), 'yes' if m.get('confirmed') else 'no', outcome, m.get('why_missed', '')))
+    rows.append((m['seed'], ', '.join(files), 'yes' if m.get('confirmed') else 'no', outcome, '' if m.get('detected') else WHY.get(m['seed'], '')))
 out = ['# Seeded changes', '',
        'Each directory holds one change produced by an independent sub-agent that saw only the property text',
        'and a scratch worktree: `patch.diff`, the demonstration `demo.rs`, the agent\'s `notes.md` and `meta.json`',
